@@ -14,6 +14,7 @@ package httpserver
 //@ // strictest: the result is one of the set values, and no set value is stricter than it (0 = no timeout = weakest, as in net/http)
 //@ func makeHTTPServerWithTimeouts
 //@   requires forall(k, 0, len(group), group[k] != nil)
+//@   ensures [a_server] result != nil
 //@   ensures [default_read] forall(k, 0, len(group), !group[k].Timeouts.ReadTimeoutSet) ==> result.ReadTimeout == defaultTimeouts.ReadTimeout
 //@   ensures [attained_read] exists(k, 0, len(group), group[k].Timeouts.ReadTimeoutSet) ==> exists(k, 0, len(group), group[k].Timeouts.ReadTimeoutSet && result.ReadTimeout == group[k].Timeouts.ReadTimeout)
 //@   ensures [strictest_read] forall(k, 0, len(group), group[k].Timeouts.ReadTimeoutSet ==> (result.ReadTimeout == group[k].Timeouts.ReadTimeout || (result.ReadTimeout != 0 && (group[k].Timeouts.ReadTimeout == 0 || result.ReadTimeout <= group[k].Timeouts.ReadTimeout))))
@@ -776,7 +777,7 @@ package httpserver
 //@   modifies ghost:hw, ghost:lastStatus, ghost:bodyWrites
 //@   ensures [one_404_or_421] hw == old(hw) + 1 && bodyWrites == old(bodyWrites) + 1 && ((r.ProtoMajor < 2 && lastStatus == 404) || (r.ProtoMajor >= 2 && lastStatus == 421))
 
-//@ unit context_helpers frames=on props=C06,C15,C01,C20 verify_pure=on nilchecks=on filter=`httpserver\.Address\)\.(String|Key)$|httpserver\.httpContext\)\.saveConfig$|httpserver\.newLimitWriter$|httpserver\.newContext$`
+//@ unit context_helpers frames=on props=C06,C15,C01,C20 verify_pure=on nilchecks=on filter=`httpserver\.Address\)\.(String|Key)$|httpserver\.httpContext\)\.saveConfig$|httpserver\.newLimitWriter$|httpserver\.newContext$|httpserver\.newVHostTrie$`
 //@ // helpers that inspect_server_blocks and new_replacer assume through thin contracts, proved: the two address renderings
 //@ // write nothing, saveConfig writes the context's list and key table only, the constructors return live objects
 //@ use @verif/specs/stdlib.spec:stdlib
@@ -794,3 +795,52 @@ package httpserver
 //@   ensures result != nil && result.remain == max
 //@ func newContext
 //@   ensures [context_starts_with_an_empty_key_table] result != nil
+//@ func newVHostTrie
+//@   ensures result != nil && result.edges != nil && len(result.fallbackHosts) == 3
+
+//@ unit middleware_compile props=C09,C01 filter=`httpserver\.NewServer$|httpserver\.SiteConfig\)\.AddMiddleware$`
+//@ // C09 "middleware compiled innermost-last from the per-site list": a directive's setup appends its middleware to the
+//@ // site's list (so the list is in directive order, unit execute_directives), and NewServer wraps from the LAST entry to the
+//@ // FIRST, each around the chain built so far, and files the site in the trie only with the complete chain: the first
+//@ // directive's middleware is outermost. Contract clauses at the call sites; the TLS part of NewServer is not described here.
+//@ func (*SiteConfig).AddMiddleware
+//@   requires s != nil
+//@   ensures [appended_after_the_earlier_ones] len(s.middleware) == old(len(s.middleware)) + 1 && s.middleware[len(s.middleware)-1] == m && forall(k, 0, old(len(s.middleware)), s.middleware[k] == old(s.middleware[k]))
+//@ // constructors used on the way, through what their own units prove of them (server_timeouts, header_limit, context_helpers)
+//@ func makeHTTPServerWithTimeouts
+//@   requires forall(k, 0, len(group), group[k] != nil)
+//@   ensures [a_server] result != nil
+//@ func makeHTTPServerWithHeaderLimit
+//@   ensures [returns_server] result == s
+//@ func newVHostTrie
+//@   ensures result != nil
+//@ func NewServer
+//@   requires forall(k, 0, len(group), group[k] != nil)
+//@   at call dynamic#1 before [each_entry_wraps_the_chain_built_from_the_later_ones] 0 <= i && i < len(site.middleware) && callee == site.middleware[i] && arg0 == stack
+//@   at call (*vhostTrie).Insert before [site_is_filed_with_its_complete_chain] i == -1 && site.middlewareChain == stack
+//@   loop 2 invariant -1 <= i && i < len(site.middleware) && site != nil
+
+//@ unit trie_insert frames=on props=C01 nilchecks=on filter=`httpserver\.vhostTrie\)\.(Insert|insertPath)$|httpserver\.getFallbacks$`
+//@ // C01, the writing side of the host/path trie: a site is filed at the node reached by its host and then, byte by byte, by
+//@ // its path; the node at the end of the path gets the site and the path as written. Safety for every key (no nil-map
+//@ // store, no index out of range), termination on the path length, and the fallback-host list is exactly the hosts of the
+//@ // sites flagged as fallback, in declaration order. Representation invariant (assumed at entry for nodes reached through
+//@ // edges, established for every node made here): a node has an edge table, and an edge leads to a node.
+//@ invariant (n *vhostTrie, c string) (n != nil && has(n.edges, c)) ==> (n.edges[c] != nil && n.edges[c].edges != nil)
+//@ func newVHostTrie
+//@   ensures result != nil && result.edges != nil && len(result.fallbackHosts) == 3
+//@ func (*vhostTrie).splitHostPath
+//@   pure
+//@ func (*vhostTrie).insertPath
+//@   requires t != nil && t.edges != nil
+//@   modifies vhostTrie.site, vhostTrie.path, MV:map[string]*github.com/tmpim/casket/caskethttp/httpserver.vhostTrie, MD:map[string]*github.com/tmpim/casket/caskethttp/httpserver.vhostTrie
+//@   decreases len(remainingPath)
+//@   ensures [end_of_path_holds_the_site_and_the_path_as_written] remainingPath == "" ==> (t.site == site && t.path == originalPath)
+//@ func (*vhostTrie).Insert
+//@   requires t != nil && t.edges != nil
+//@   modifies vhostTrie.site, vhostTrie.path, MV:map[string]*github.com/tmpim/casket/caskethttp/httpserver.vhostTrie, MD:map[string]*github.com/tmpim/casket/caskethttp/httpserver.vhostTrie
+//@   at call (*vhostTrie).insertPath before [filed_under_the_host_part_with_the_whole_path_part] arg1 == ret(1, t.splitHostPath(key)) && arg2 == arg1 && arg3 == site && has(t.edges, ret(0, t.splitHostPath(key))) && arg0 == t.edges[ret(0, t.splitHostPath(key))]
+//@ func getFallbacks
+//@   requires forall(k, 0, len(sites), sites[k] != nil)
+//@   ensures [fallback_hosts_are_hosts_of_fallback_sites] forall(k, 0, len(result), exists(j, 0, len(sites), sites[j].FallbackSite && result[k] == sites[j].Addr.Host))
+//@   loop 1 invariant 0 <= #i && #i <= len(sites) && forall(k, 0, len(fallbacks), exists(j, 0, #i, sites[j].FallbackSite && fallbacks[k] == sites[j].Addr.Host))
